@@ -41,7 +41,8 @@ CHECK = {'rule': 'four rapid-generated case kinds plus one exhaustive part. maps
                               'load:ignored-files',
                               'load:base-subdir',
                               'load:files=1',
-                              'load:files=9-40'],
+                              'load:files=9-40',
+                              'load:keys>512'],
                       'thorough': ['kind:maps',
                                    'kind:read',
                                    'kind:write',
